@@ -5,6 +5,7 @@ package run
 import (
 	"bytes"
 	"fmt"
+	"go/ast"
 	"go/token"
 	"go/types"
 	"os"
@@ -22,25 +23,26 @@ import (
 
 // Front is the front-end schedule and fault plan, explicit in every Record.
 type Front struct {
-	Eager          []int   `json:"eager,omitempty"`       // units declared up front, in this order (value mod #units)
-	Lazy           []int   `json:"lazy,omitempty"`        // named types completed from LoadNamed (value mod #units, types only)
-	BodyOrder      []int   `json:"body_order,omitempty"`  // order of function bodies (value mod #units)
-	FileAssign     []int   `json:"file_assign,omitempty"` // unit i goes to file m<FileAssign[i mod len] mod NFiles>.go
-	NFiles         int     `json:"nfiles,omitempty"`
-	BodiesEarly    bool    `json:"bodies_early,omitempty"`
-	ImportAtStart  bool    `json:"import_at_start,omitempty"`
-	HandlerReturns bool    `json:"handler_returns,omitempty"` // HandleErr returns instead of panicking
-	NoSkipConst    bool    `json:"no_skip_const,omitempty"`
-	EarlyWrites    []int   `json:"early_writes,omitempty"`   // every file is written (and the result dropped) after these body ordinals
-	LateRef        []int   `json:"late_ref,omitempty"`       // after the first round of writes: a new function (a name no import can take) in file LateRef[2k] referring to a package, preferably one the file referenced before only through a discarded operand
-	LateForce      []int   `json:"late_force,omitempty"`     // after the first round of writes: force-import path LateForce[2k+1] into file LateForce[2k] (no declaration follows)
-	Rewrites       int     `json:"rewrites,omitempty"`       // extra rounds of writing every file at the end (the last round counts)
-	WriteOrder     []int   `json:"write_order,omitempty"`    // order in which the files are written at the end (permutation code)
-	ReuseImporter  *imp.Importer `json:"-"` // environment: the importer (with every package it has imported) of an earlier build of the process
-	SharedImporter bool    `json:"-"`                        // environment, not history: standard packages come from one importer shared by the builds of this process
-	CompleteEarly  bool    `json:"complete_early,omitempty"` // grouped type declarations are closed before their lazily loaded members get a type
-	XGoBuiltin     bool    `json:"xgo_builtin,omitempty"`    // XGo-style configuration: untyped big types, overloaded println, builtin-type methods
-	Faults         []Fault `json:"faults,omitempty"`
+	Eager          []int         `json:"eager,omitempty"`       // units declared up front, in this order (value mod #units)
+	Lazy           []int         `json:"lazy,omitempty"`        // named types completed from LoadNamed (value mod #units, types only)
+	BodyOrder      []int         `json:"body_order,omitempty"`  // order of function bodies (value mod #units)
+	FileAssign     []int         `json:"file_assign,omitempty"` // unit i goes to file m<FileAssign[i mod len] mod NFiles>.go
+	NFiles         int           `json:"nfiles,omitempty"`
+	BodiesEarly    bool          `json:"bodies_early,omitempty"`
+	ImportAtStart  bool          `json:"import_at_start,omitempty"`
+	HandlerReturns bool          `json:"handler_returns,omitempty"` // HandleErr returns instead of panicking
+	NoSkipConst    bool          `json:"no_skip_const,omitempty"`
+	EarlyWrites    []int         `json:"early_writes,omitempty"`   // every file is written (and the result dropped) after these body ordinals
+	FailedPrint    bool          `json:"failed_print,omitempty"`   // before the files are written, another package of the process (a function with a //go:build line in its doc comment, then a type that never got its underlying type) is printed; the printer panics half-way, the caller recovers
+	LateRef        []int         `json:"late_ref,omitempty"`       // after the first round of writes: a new function (a name no import can take) in file LateRef[2k] referring to a package, preferably one the file referenced before only through a discarded operand
+	LateForce      []int         `json:"late_force,omitempty"`     // after the first round of writes: force-import path LateForce[2k+1] into file LateForce[2k] (no declaration follows)
+	Rewrites       int           `json:"rewrites,omitempty"`       // extra rounds of writing every file at the end (the last round counts)
+	WriteOrder     []int         `json:"write_order,omitempty"`    // order in which the files are written at the end (permutation code)
+	ReuseImporter  *imp.Importer `json:"-"`                        // environment: the importer (with every package it has imported) of an earlier build of the process
+	SharedImporter bool          `json:"-"`                        // environment, not history: standard packages come from one importer shared by the builds of this process
+	CompleteEarly  bool          `json:"complete_early,omitempty"` // grouped type declarations are closed before their lazily loaded members get a type
+	XGoBuiltin     bool          `json:"xgo_builtin,omitempty"`    // XGo-style configuration: untyped big types, overloaded println, builtin-type methods
+	Faults         []Fault       `json:"faults,omitempty"`
 }
 
 // Fault is one injected front-end fault, placed before statement Stmt of a body of unit
@@ -182,28 +184,28 @@ func (e *Env) admit(p *prog.Program) *CorpusEntry {
 
 // Result of one build.
 type Result struct {
-	LoadErr    error
-	Rejected   string // gogen panicked: the program (or this history of it) was rejected
-	Runtime    bool   // ... with a Go runtime error rather than a reported code error
-	Stack      string // stack of a runtime error (frames in gogen only)
-	FailUnit   string
-	FailInBody bool
-	Names      []string
-	Files      map[string][]byte
-	WriteErr   map[string]string
-	Diags      []string
-	Ops        int
-	Units      int
-	Declared   int
-	Bodies     int
-	C          *minicl.Compiler
-	Imp        *imp.Importer
-	Fset       *token.FileSet
-	FaultFired map[string]int
-	Discarded  []string            // import paths referenced only through discarded operands
-	FirstFile  string              // the file that was current at the start (force-imports go there)
-	XGoBuiltin bool                // the XGo-style configuration was in effect
-	LateForced map[string][]string // file -> paths force-imported after the first write
+	LoadErr     error
+	Rejected    string // gogen panicked: the program (or this history of it) was rejected
+	Runtime     bool   // ... with a Go runtime error rather than a reported code error
+	Stack       string // stack of a runtime error (frames in gogen only)
+	FailUnit    string
+	FailInBody  bool
+	Names       []string
+	Files       map[string][]byte
+	WriteErr    map[string]string
+	Diags       []string
+	Ops         int
+	Units       int
+	Declared    int
+	Bodies      int
+	C           *minicl.Compiler
+	Imp         *imp.Importer
+	Fset        *token.FileSet
+	FaultFired  map[string]int
+	Discarded   []string            // import paths referenced only through discarded operands
+	FirstFile   string              // the file that was current at the start (force-imports go there)
+	XGoBuiltin  bool                // the XGo-style configuration was in effect
+	LateForced  map[string][]string // file -> paths force-imported after the first write
 	LateRefs    [][2]string         // (file, path) referenced by a function declared after the first write
 	DiscardedIn [][2]string         // (file, path) of every discarded reference
 }
@@ -522,6 +524,22 @@ func (e *Env) build(p *prog.Program, f *Front, hooks *minicl.Hooks, ce *CorpusEn
 			}()
 			c.Pkg.RestoreCurFile(old)
 		}
+	}
+	if f.FailedPrint {
+		func() {
+			defer func() {
+				if rec := recover(); rec != nil {
+					r.FaultFired["failed_print"]++
+				}
+			}()
+			zp := gogen.NewPackage("", "zzfailed", &gogen.Config{Fset: fset, Importer: im})
+			fn := zp.NewFunc(nil, "F", nil, nil, false)
+			fn.SetComments(zp, &ast.CommentGroup{List: []*ast.Comment{{Text: "//go:build ignore"}, {Text: "// F does nothing."}}})
+			fn.BodyStart(zp).End()
+			zp.NewType("T") // never initialised: printing it fails
+			var sink bytes.Buffer
+			zp.WriteTo(&sink)
+		}()
 	}
 	for round := 0; round < f.Rewrites; round++ {
 		for i := len(worder) - 1; i >= 0; i-- {
